@@ -69,6 +69,8 @@ func checkC07(c *Ctx) {
 	c.tokenIdentity()
 	// answers computed once and kept are reset by every update of what they were computed from
 	c.memoisedViews()
+	// every filter of a SUBSCRIBE / UNSUBSCRIBE is decoded: the decode loops run to the end of the packet
+	c.decodeLoopConservation()
 }
 
 // afterNever: no b after a (within the case).
